@@ -59,6 +59,12 @@ func c02Attrs(r *Rng) [][2]string {
 		used[n] = true
 		v := c02Text(r)
 		v = strings.ReplaceAll(v, `"`, "&quot;")
+		switch r.Intn(12) {
+		case 0:
+			v = n // a value spelled like the attribute's own name (name="name", for="for")
+		case 1:
+			v = Pick(r, []string{"true", "false", "on", "0", strings.ToUpper(n)})
+		}
 		as = append(as, [2]string{n, v})
 	}
 	return as
